@@ -3,8 +3,8 @@
    list of buffer sizes and every group size (including group size 0: IndexError from heappop iff there is a block).
 
    The three copies differ only in the attribute that holds the group size (`self._group_size` / `self._dist_group_size`),
-   which is a parameter here; their generated definitions are syntactically identical, so the equivalence is proved once
-   (for the DDP copy) and transported by `reflexivity`.
+   which is a parameter here.  On the unchanged tree their generated definitions are syntactically identical, but each copy is
+   proved on its own (the same tactic `copy_proof`), so that a harmless rewrite of one copy only does not raise an alarm.
    heapq is the bag interface of PyPrelude (pq_pop = remove the lexicographic minimum), i.e. Assign.pop_min; the model counts
    block indices and ranks in nat, the code in Python ints: zi / zh convert. *)
 From Coq Require Import ZArith List Bool Lia Arith Permutation.
@@ -180,6 +180,48 @@ Qed.
 Lemma sort_desc_nonempty x l : sort_desc (x :: l) <> [].
 Proof. cbn [sort_desc]. destruct (sort_desc l) as [|y r]; cbn [insert_desc]; [discriminate|]. destruct (snd x <? snd y); discriminate. Qed.
 
+Lemma repeat_lookupZ_nil n : repeat (-1, -1) n = map (lookupZ []) (seq 0 n).
+Proof. generalize 0%nat. induction n as [|n IH]; intro s; [reflexivity|]. cbn [repeat seq map]. rewrite (IH (S s)). reflexivity. Qed.
+
+Lemma distribute_S sizes gs : distribute_buffer_sizes sizes (S gs) = Assigned (assign sizes (S gs)).
+Proof. destruct sizes; reflexivity. Qed.
+
+Lemma sorted_indices_in_range sizes : forall iq, In iq (sort_desc (indexed sizes)) -> (fst iq < length sizes)%nat.
+Proof. intros [i q] H. apply (Permutation_in _ (sort_desc_perm _)) in H. apply indexed_in in H. tauto. Qed.
+
+Lemma assign_lookupZ sizes gs :
+  map (lookupZ (greedy (sort_desc (indexed sizes)) (init_heap (S gs)) [])) (seq 0 (length sizes)) = map zh (assign sizes (S gs)).
+Proof.
+  unfold assign, run_of. rewrite map_map. apply map_ext_in. intros i Hi. apply lookupZ_lookup.
+  replace (map e_index (greedy (sort_desc (indexed sizes)) (init_heap (S gs)) []))
+    with (map fst (map fst (greedy (sort_desc (indexed sizes)) (init_heap (S gs)) []))) by (rewrite map_map; reflexivity).
+  rewrite greedy_fst by discriminate. cbn [map]. rewrite app_nil_r, map_rev. apply in_rev. rewrite rev_involutive.
+  eapply Permutation_in; [apply Permutation_sym, Permutation_map, sort_desc_perm|]. rewrite indexed_fst. exact Hi.
+Qed.
+
+(* the proof of one copy: the three copies need not be written the same way (each is matched against the two loop shapes) *)
+Ltac copy_proof unf :=
+  intros sizes gs; unf; cbv zeta;
+  rewrite (py_mapM_ret _ align64);
+  [| intro x; unfold py_floordiv; cbn [Z.eqb]; rewrite bind_ret; unfold align64; do 3 f_equal; lia ];
+  rewrite bind_ret, init_heap_zh; unfold pq_heapify;
+  (* the loop over (index, size) pairs with heappop/heappush, or over indices with heap[0]/heapreplace *)
+  first [ rewrite enumerate_indexed, sorted_zi;
+          match goal with |- context[py_for ?b _ _] => change b with loop_body end
+        | rewrite sorted_getitem, bind_ret;
+          match goal with |- context[py_for ?b _ _] => change b with (loop_body_idx (map align64 sizes)) end;
+          rewrite loop_idx_eq by (apply indexed_getitem) ];
+  unfold py_len; rewrite list_mul_repeat;
+  rewrite (repeat_lookupZ_nil (length sizes));
+  destruct gs as [|gs];
+  [ (* empty heap: heappop raises at the first block, if there is one *)
+    destruct sizes as [|x sizes]; [reflexivity|]; cbn [distribute_buffer_sizes];
+    destruct (sort_desc (indexed (x :: sizes))) as [|iq order] eqn:E; [apply sort_desc_nonempty in E; contradiction|];
+    reflexivity
+  | rewrite (distribute_S sizes gs);
+    rewrite (loop_eq (length sizes) _ (init_heap (S gs)) [] ltac:(discriminate) (sorted_indices_in_range sizes));
+    apply f_equal; apply assign_lookupZ ].
+
 Theorem gen_ddp_distribute_buffer_sizes_eq_model :
   forall (sizes : list Z) (gs : nat),
   GenC14.ddp_distribute_buffer_sizes sizes (Z.of_nat gs)
@@ -187,55 +229,26 @@ Theorem gen_ddp_distribute_buffer_sizes_eq_model :
     | Assigned l => Ret (map zh l)
     | RaiseIndexError => Raise IndexError 0
     end.
-Proof.
-  intros sizes gs. unfold GenC14.ddp_distribute_buffer_sizes. cbv zeta.
-  rewrite (py_mapM_ret _ align64).
-  2:{ intro x. unfold py_floordiv. cbn [Z.eqb]. rewrite bind_ret. unfold align64. do 3 f_equal. lia. }
-  rewrite bind_ret, init_heap_zh. unfold pq_heapify.
-  (* the loop over (index, size) pairs with heappop/heappush, or over indices with heap[0]/heapreplace *)
-  first [ rewrite enumerate_indexed, sorted_zi;
-          match goal with |- context[py_for ?b _ _] => change b with loop_body end
-        | rewrite sorted_getitem, bind_ret;
-          match goal with |- context[py_for ?b _ _] => change b with (loop_body_idx (map align64 sizes)) end;
-          rewrite loop_idx_eq by (apply indexed_getitem) ].
-  unfold py_len. rewrite list_mul_repeat.
-  assert (Hrep : repeat (-1, -1) (length sizes) = map (lookupZ []) (seq 0 (length sizes))).
-  { generalize 0%nat. induction (length sizes) as [|n IH]; intro s; [reflexivity|]. cbn [repeat seq map]. rewrite (IH (S s)). reflexivity. }
-  rewrite Hrep. clear Hrep.
-  destruct gs as [|gs].
-  - (* empty heap: heappop raises at the first block, if there is one *)
-    destruct sizes as [|x sizes]; [reflexivity|]. cbn [distribute_buffer_sizes].
-    destruct (sort_desc (indexed (x :: sizes))) as [|iq order] eqn:E; [apply sort_desc_nonempty in E; contradiction|].
-    reflexivity.
-  - assert (Hd : distribute_buffer_sizes sizes (S gs) = Assigned (assign sizes (S gs))) by (destruct sizes; reflexivity).
-    rewrite Hd. clear Hd.
-    assert (Hin : forall iq, In iq (sort_desc (indexed sizes)) -> (fst iq < length sizes)%nat).
-    { intros [i q] H. apply (Permutation_in _ (sort_desc_perm _)) in H. apply indexed_in in H. tauto. }
-    rewrite (loop_eq (length sizes) _ (init_heap (S gs)) [] ltac:(discriminate) Hin).
-    apply f_equal. unfold assign, run_of. rewrite map_map. apply map_ext_in. intros i Hi. apply lookupZ_lookup.
-    replace (map e_index (greedy (sort_desc (indexed sizes)) (init_heap (S gs)) []))
-      with (map fst (map fst (greedy (sort_desc (indexed sizes)) (init_heap (S gs)) []))) by (rewrite map_map; reflexivity).
-    rewrite greedy_fst by discriminate. cbn [map]. rewrite app_nil_r, map_rev. apply in_rev. rewrite rev_involutive.
-    eapply Permutation_in; [apply Permutation_sym, Permutation_map, sort_desc_perm|]. rewrite indexed_fst. exact Hi.
-Qed.
+Proof. copy_proof ltac:(unfold GenC14.ddp_distribute_buffer_sizes). Qed.
 Print Assumptions gen_ddp_distribute_buffer_sizes_eq_model.
-
-(* the other two copies generate the very same term *)
-Lemma hsdp_copy_identical : GenC14.hsdp_distribute_buffer_sizes = GenC14.ddp_distribute_buffer_sizes.
-Proof. reflexivity. Qed.
-Lemma hybrid_copy_identical : GenC14.hybrid_distribute_buffer_sizes = GenC14.ddp_distribute_buffer_sizes.
-Proof. reflexivity. Qed.
 
 Theorem gen_hsdp_distribute_buffer_sizes_eq_model :
   forall (sizes : list Z) (gs : nat),
   GenC14.hsdp_distribute_buffer_sizes sizes (Z.of_nat gs)
-  = match Assign.distribute_buffer_sizes sizes gs with Assigned l => Ret (map zh l) | RaiseIndexError => Raise IndexError 0 end.
-Proof. rewrite hsdp_copy_identical. exact gen_ddp_distribute_buffer_sizes_eq_model. Qed.
+  = match Assign.distribute_buffer_sizes sizes gs with
+    | Assigned l => Ret (map zh l)
+    | RaiseIndexError => Raise IndexError 0
+    end.
+Proof. copy_proof ltac:(unfold GenC14.hsdp_distribute_buffer_sizes). Qed.
 Print Assumptions gen_hsdp_distribute_buffer_sizes_eq_model.
 
 Theorem gen_hybrid_distribute_buffer_sizes_eq_model :
   forall (sizes : list Z) (gs : nat),
   GenC14.hybrid_distribute_buffer_sizes sizes (Z.of_nat gs)
-  = match Assign.distribute_buffer_sizes sizes gs with Assigned l => Ret (map zh l) | RaiseIndexError => Raise IndexError 0 end.
-Proof. rewrite hybrid_copy_identical. exact gen_ddp_distribute_buffer_sizes_eq_model. Qed.
+  = match Assign.distribute_buffer_sizes sizes gs with
+    | Assigned l => Ret (map zh l)
+    | RaiseIndexError => Raise IndexError 0
+    end.
+Proof. copy_proof ltac:(unfold GenC14.hybrid_distribute_buffer_sizes). Qed.
 Print Assumptions gen_hybrid_distribute_buffer_sizes_eq_model.
+
